@@ -80,3 +80,54 @@ package doif
 //@   callee ToLower(b) (r)
 //@     pure
 //@     ensures isnil(r) || fresh(r)
+
+// lenCmpOpNode.Check (C14): what is compared with the configured value is, for
+// byte_len_cmp on a scalar, the length of the decoded string (the value every other
+// do_if operation sees); on an object or array, its encoded size; for array_len_cmp
+// the number of elements.  The outcome is the comparison's, nothing else.
+
+//@ func (*lenCmpOpNode).Check
+//@   option allow-panic yes
+//@   ghost gs int = 0
+//@   ghost gsz int = 0
+//@   ghost garr int = 0
+//@   ghost isobj bool = false
+//@   ghost isarr bool = false
+//@   ghost gres bool = false
+//@   ghost ncmp int = 0
+//@   ensures ncmp <= 1 && (ncmp == 1 ==> result == gres) && (ncmp == 0 ==> !result)
+//@   callee Dig(path) (nd)
+//@     pure
+//@   callee IsObject() (r)
+//@     pure
+//@     set isobj := r
+//@   callee IsArray() (r)
+//@     pure
+//@     set isarr := r
+//@   callee IsNumber() (r)
+//@     pure
+//@   callee IsString() (r)
+//@     pure
+//@   callee AsString() (s)
+//@     pure
+//@     set gs := len(s)
+//@   callee AsEscapedString() (s)
+//@     pure
+//@   callee TypeStr() (s)
+//@     pure
+//@   callee AsInt() (v)
+//@     pure
+//@   callee AsArray() (arr)
+//@     pure
+//@     set garr := len(arr)
+//@   callee getNodeBytesSize(nd) (r)
+//@     pure
+//@     set gsz := r
+//@   callee compare(a, b) (r)
+//@     requires b == n.cmpValue && ncmp == 0
+//@     requires n.lenCmpOp == byteLenCmpOp && !isobj && !isarr ==> a == gs
+//@     requires n.lenCmpOp == byteLenCmpOp && (isobj || isarr) ==> a == gsz
+//@     requires n.lenCmpOp == arrayLenCmpOp ==> a == garr
+//@     pure
+//@     set gres := r
+//@     set ncmp := ncmp + 1
